@@ -119,6 +119,41 @@ def resultTo (r : Except Err (List (List Comp.Op))) (infos coros : List (Option 
   | .ok ops => Json.mkObj [("ok", Json.mkObj [("ops", jList (jList opTo) ops), ("infos", jList (jOpt Json.str) infos),
       ("coros", jList (jOpt Json.str) coros)])]
 
+mutual
+/-- diagnostics only: why a statement is outside `cgStmt 4` (empty = inside) -/
+def whyStmt : Stmt → String
+  | .op n _ => if nameOK n then "" else "op name " ++ n
+  | .inl c _ n _ => if ESV.Beh.isCtx c && nameOK n && n != Gen.op_return then "" else "inline ctx " ++ c ++ "/" ++ n
+  | .with_ c _ inner => if ESV.Beh.isCtx c && f0Inner inner then "" else "with-block"
+  | .ite _ hdrs body elifs _ els =>
+    if !hdrs.all (fun h => ESV.Beh.isTest h.name) then "if header" else
+    let a := whyStmts body; if a != "" then a else
+    let b := whyElifs elifs; if b != "" then b else whyStmts els
+  | .switch hdr cs =>
+    if !nameOK hdr.name then "switch header name " ++ hdr.name else if Beh.endsFlow hdr.name then "switch header ends flow"
+    else if countDefaults cs > 1 then "two defaults" else whyCases hdr.name true cs
+  | .forever body => whyStmts body
+  | .while_ _ h body => if !ESV.Beh.isTest h.name then "while header" else whyStmts body
+  | .for_ init h inc body =>
+    if !ESV.Beh.isTest h.name then "for header" else if !cgSimple init then "for init" else if !cgSimple inc then "for inc" else whyStmts body
+  | .macroCall .. => "macro call"
+  | _ => ""
+def whyStmts : Stmts → String
+  | .nil => ""
+  | .cons s r => let a := whyStmt s; if a != "" then a else whyStmts r
+def whyElifs : Elifs → String
+  | .nil => ""
+  | .cons _ hdrs body r =>
+    if !hdrs.all (fun h => ESV.Beh.isTest h.name) then "elseif header" else
+    let a := whyStmts body; if a != "" then a else whyElifs r
+def whyCases (sw : String) (nf : Bool) : Cases → String
+  | .nil => ""
+  | .cons d name _ body r =>
+    if !(d || (ESV.Beh.isTest name && ESV.Beh.isTest (caseName sw name))) then "case name " ++ name
+    else if loneExit body && !d && !nf then "lone exit case block, fall-in possible"
+    else let a := whyStmts body; if a != "" then a else whyCases sw (if body.isNil then nf else endsFlowStmts body) r
+end
+
 def handle (op : String) (j : Json) : R Json := do
   match op with
   | "comp.compile" =>
@@ -147,7 +182,11 @@ def handle (op : String) (j : Json) : R Json := do
     -- it lowers for the compiler model
     let p ← programOf (← fld j "prog")
     let core ← Drv.BehD.programOf (← fld j "core")
-    pure (Json.mkObj [("agree", .bool (srcAgrees (toSrc p) core)), ("f0", .bool (decide (F0Prog p))), ("f1", .bool (decide (CgProg 1 p))), ("f2", .bool (decide (CgProg 2 p))), ("f3", .bool (decide (CgProg 3 p))), ("f4", .bool (decide (CgProg 4 p)))])
+    pure (Json.mkObj [("agree", .bool (srcAgrees (toSrc p) core)), ("f0", .bool (decide (F0Prog p))), ("f1", .bool (decide (CgProg 1 p))), ("f2", .bool (decide (CgProg 2 p))), ("f3", .bool (decide (CgProg 3 p))), ("f4", .bool (decide (CgProg 4 p))),
+      ("f4why", .str (if p.macros ≠ [] then "macros" else if seqFrom p.routines 0 = false then "routine ids"
+        else if p.routines.any (fun r => !cgStmts 4 r.body) then
+          "stmt:" ++ (p.routines.foldl (fun acc r => if acc == "" then whyStmts r.body else acc) "")
+        else if ¬ (allDefs p).Nodup then "label defined twice" else if ¬ CgProg 4 p then "label not defined" else ""))])
   | "comp.backend" =>
     let rs ← (← asArr (← fld j "routines")).mapM fun r => do (← asArr r).mapM itemOf
     pure (resultTo (backend rs) [] [])
